@@ -263,6 +263,10 @@ def cbmc_cmd(h, tier, gb, witness, backend):
         cmd += ['--unwinding-assertions', '--trace', '--stop-on-fail']
         if h.no_checks:
             cmd += ['--no-standard-checks']
+        elif h.engine == 'irc':
+            # no --pointer-overflow-check for IR-derived C: LLVM computes addresses (getelementptr on a null or one-past pointer)
+            # before the guarding branch, which is defined in IR but flagged by CBMC's pointer-arithmetic check
+            cmd += ['--signed-overflow-check', '--undefined-shift-check']
         else:
             cmd += ['--pointer-overflow-check', '--signed-overflow-check', '--undefined-shift-check']
     if h.slice_formula:
